@@ -12,11 +12,8 @@ def topd (c : Cluster) (k : String) (i : Nat) : Option Doc :=
   | some s => top s k
   | none => none
 
-def tvf (c : Cluster) (k : String) (i : Nat) : Option Ver := (topd c k i).map ver
-
-theorem tvf_eq (c : Cluster) (k : String) (i : Nat) :
-    tvf c k i = match c.reps[i]? with | some s => topVer s k | none => none := by
-  simp only [tvf, topd, topVer]; split <;> rfl
+/-- newest `(revision, deleted?)` of key `k` on replica `i`. -/
+def tvf (c : Cluster) (k : String) (i : Nat) : Option Ver := (topd c k i).map cver
 
 /-- exchange operations on a cluster: a gossip exchange about one leaf, or a one-way repair of one key. -/
 inductive COp where
@@ -90,28 +87,52 @@ theorem topd_set1 (c : Cluster) {b : Nat} (y : Shard) (t : Nat) (hb : b < c.reps
 theorem topd_at {c : Cluster} {i : Nat} {s : Shard} (h : c.reps[i]? = some s) (k : String) : topd c k i = top s k := by
   simp [topd, h]
 
-/-- every exchange operation acts on the newest documents of key `k` as follows. -/
-theorem cstep_topd (c : Cluster) (op : COp) (k : String) (hv : op.valid c.reps.length) :
-    (∀ i, (topd (cstep c op) k i).map ver = xstep (tvf c k) (absOp k op) i) ∧
-    ∀ i, ∃ j, topd (cstep c op) k i = topd c k j := by
+/-- invariant of exchange sequences: storage is flag-consistent everywhere and the delete clock is positive. -/
+def CInv (c : Cluster) : Prop := (∀ s ∈ c.reps, FlagConsistent s) ∧ 0 < c.clk
+
+/-- every document of `c'` has the content (key, revision, create revision, tags) of a document of `c`. -/
+def ContentFrom (c c' : Cluster) : Prop := ∀ s' ∈ c'.reps, ∀ y ∈ s', ∃ s ∈ c.reps, ∃ x ∈ s, SameContent x y
+
+theorem ContentFrom.refl (c : Cluster) : ContentFrom c c := fun s hs y hy => ⟨s, hs, y, hy, rfl, rfl, rfl, rfl⟩
+
+theorem ContentFrom.trans {a b c : Cluster} (h1 : ContentFrom a b) (h2 : ContentFrom b c) : ContentFrom a c := by
+  intro s' hs' y hy
+  obtain ⟨s, hs, x, hx, e⟩ := h2 s' hs' y hy
+  obtain ⟨s0, hs0, x0, hx0, e0⟩ := h1 s hs x hx
+  exact ⟨s0, hs0, x0, hx0, e0.1.trans e.1, e0.2.1.trans e.2.1, e0.2.2.1.trans e.2.2.1, e0.2.2.2.trans e.2.2.2⟩
+
+theorem mem_set2 {α : Type} {l : List α} {a b : Nat} {x y z : α} (h : z ∈ (l.set a x).set b y) : z = y ∨ z = x ∨ z ∈ l := by
+  rcases List.mem_or_eq_of_mem_set h with h | h
+  · rcases List.mem_or_eq_of_mem_set h with h | h
+    · exact Or.inr (Or.inr h)
+    · exact Or.inr (Or.inl h)
+  · exact Or.inl h
+
+/-- every exchange operation acts on the newest `(revision, deleted?)` of key `k` as its abstraction does, keeps
+    the invariant, and invents no content. -/
+theorem cstep_spec (c : Cluster) (op : COp) (k : String) (hv : op.valid c.reps.length) (hi : CInv c) :
+    (∀ i, tvf (cstep c op) k i = xstep (tvf c k) (absOp k op) i) ∧ CInv (cstep c op) ∧ ContentFrom c (cstep c op) := by
   cases op with
   | g a b k' =>
     obtain ⟨ha, hb, hab⟩ := hv
     obtain ⟨x, hx⟩ : ∃ x, c.reps[a]? = some x := ⟨c.reps[a], by simp [ha]⟩
     obtain ⟨y, hy⟩ : ∃ y, c.reps[b]? = some y := ⟨c.reps[b], by simp [hb]⟩
+    have hxm : x ∈ c.reps := List.mem_of_getElem? hx
+    have hym : y ∈ c.reps := List.mem_of_getElem? hy
     have hne : (a == b) = false := by simp [hab]
-    have spec := gossipLeaf_spec x y k' c.clk
+    have spec := gossipLeaf_spec (hi.1 x hxm) (hi.1 y hym) k' hi.2
     simp only [cstep, gossipOp, hx, hy, hne]
     generalize gossipLeaf x y k' c.clk = r at spec
     obtain ⟨x', y', tr, clk'⟩ := r
     simp only at spec
-    obtain ⟨s1, s2, s3, s4, s5⟩ := spec
-    simp only [topVer] at s1 s2
+    obtain ⟨s1, s2, f1, f2, s5, hclk, horig⟩ := spec
+    simp only [ctopVer] at s1 s2
     simp only [Bool.false_eq_true, if_false]
     have hta := topd_at hx
     have htb := topd_at hy
-    constructor
+    refine ⟨?_, ⟨?_, by have := hi.2; simp only; omega⟩, ?_⟩
     · intro i
+      simp only [tvf]
       rw [topd_set2 c x' y' clk' ha hb hab]
       by_cases hk : k' = k
       · subst hk
@@ -128,62 +149,60 @@ theorem cstep_topd (c : Cluster) (op : COp) (k : String) (hv : op.valid c.reps.l
         · by_cases h2 : i = a
           · simp only [h1, h2, hab, if_true, if_false, top_of_docsOf_eq e1.1, hta]
           · simp only [h1, h2, if_false]
-    · intro i
-      rw [topd_set2 c x' y' clk' ha hb hab]
-      by_cases hk : k' = k
-      · subst hk
-        by_cases h1 : i = b
-        · simp only [h1, if_true]
-          rcases s4 with e | e
-          · exact ⟨a, by rw [e, hta]⟩
-          · exact ⟨b, by rw [e, htb]⟩
-        · by_cases h2 : i = a
-          · simp only [h1, h2, hab, if_true, if_false]
-            rcases s3 with e | e
-            · exact ⟨a, by rw [e, hta]⟩
-            · exact ⟨b, by rw [e, htb]⟩
-          · exact ⟨i, by simp only [h1, h2, if_false]⟩
-      · have e1 := s5 k (Ne.symm hk)
-        refine ⟨i, ?_⟩
-        by_cases h1 : i = b
-        · simp only [h1, if_true, top_of_docsOf_eq e1.2, htb]
-        · by_cases h2 : i = a
-          · simp only [h1, h2, hab, if_true, if_false, top_of_docsOf_eq e1.1, hta]
-          · simp only [h1, h2, if_false]
+    · intro s hs
+      rcases mem_set2 hs with rfl | rfl | h
+      · exact f2
+      · exact f1
+      · exact hi.1 s h
+    · intro s hs z hz
+      rcases mem_set2 hs with rfl | rfl | h
+      · obtain ⟨w, hw, e⟩ := horig z (Or.inr hz)
+        rcases hw with hw | hw
+        · exact ⟨x, hxm, w, hw, e⟩
+        · exact ⟨y, hym, w, hw, e⟩
+      · obtain ⟨w, hw, e⟩ := horig z (Or.inl hz)
+        rcases hw with hw | hw
+        · exact ⟨x, hxm, w, hw, e⟩
+        · exact ⟨y, hym, w, hw, e⟩
+      · exact ⟨s, h, z, hz, rfl, rfl, rfl, rfl⟩
   | r a b k' =>
     obtain ⟨ha, hb, hab⟩ := hv
     obtain ⟨x, hx⟩ : ∃ x, c.reps[a]? = some x := ⟨c.reps[a], by simp [ha]⟩
     obtain ⟨y, hy⟩ : ∃ y, c.reps[b]? = some y := ⟨c.reps[b], by simp [hb]⟩
+    have hxm : x ∈ c.reps := List.mem_of_getElem? hx
+    have hym : y ∈ c.reps := List.mem_of_getElem? hy
     have hta := topd_at hx
     have htb := topd_at hy
     simp only [cstep, repairFrom, hx, hy]
     cases hd : top x k' with
     | none =>
       simp only []
-      constructor
-      · intro i
-        simp only [absOp]
-        by_cases hk : k' = k
-        · subst hk
-          simp only [if_true, xstep, upd]
-          by_cases h1 : i = b
-          · simp only [h1, if_true, tvf, hta, htb, hd, Option.map_none, vjoin_none_right]
-          · simp only [h1, if_false, tvf]
-        · simp only [hk, if_false, xstep, tvf]
-      · intro i; exact ⟨i, rfl⟩
+      refine ⟨?_, hi, ContentFrom.refl c⟩
+      intro i
+      simp only [absOp]
+      by_cases hk : k' = k
+      · subst hk
+        simp only [if_true, xstep, upd]
+        by_cases h1 : i = b
+        · simp only [h1, if_true, tvf, hta, htb, hd, Option.map_none, vjoin_none_right]
+        · simp only [h1, if_false, tvf]
+      · simp only [hk, if_false, xstep, tvf]
     | some d =>
       have hkd : d.key = k' := (top_spec hd).2.1
+      have hdin : d ∈ x := (top_spec hd).1
       simp only []
-      constructor
+      have hj := repair_ctopVer (hi.1 y hym) d hi.2
+      rw [hkd] at hj
+      refine ⟨?_, ⟨?_, by have := hi.2; simp only; omega⟩, ?_⟩
       · intro i
+        simp only [tvf]
         rw [topd_set1 c _ _ hb]
         by_cases hk : k' = k
         · subst hk
           simp only [absOp, if_true, xstep, upd, tvf, hta, htb]
           by_cases h1 : i = b
-          · have := repair_topVer y d c.clk
-            rw [hkd] at this
-            simp only [topVer] at this
+          · have := hj.1
+            simp only [ctopVer] at this
             simp only [h1, if_true, this, hd, Option.map_some]
           · simp only [h1, if_false]
         · simp only [absOp, hk, if_false, xstep, tvf]
@@ -191,46 +210,40 @@ theorem cstep_topd (c : Cluster) (op : COp) (k : String) (hv : op.valid c.reps.l
           · have := repair_other y d c.clk (k := k) (by rw [hkd]; exact Ne.symm hk)
             simp only [h1, if_true, top_of_docsOf_eq this, htb]
           · simp only [h1, if_false]
-      · intro i
-        rw [topd_set1 c _ _ hb]
-        by_cases h1 : i = b
-        · simp only [h1, if_true]
-          by_cases hk : k' = k
-          · subst hk
-            have := repair_top_cases y d c.clk
-            rw [hkd] at this
-            rcases this with e | e
-            · exact ⟨a, by rw [e, hta, hd]⟩
-            · exact ⟨b, by rw [e, htb]⟩
-          · refine ⟨b, ?_⟩
-            have := repair_other y d c.clk (k := k) (by rw [hkd]; exact Ne.symm hk)
-            rw [top_of_docsOf_eq this, htb]
-        · exact ⟨i, by simp only [h1, if_false]⟩
+      · intro s hs
+        rcases List.mem_or_eq_of_mem_set hs with h | rfl
+        · exact hi.1 s h
+        · exact hj.2
+      · intro s hs z hz
+        rcases List.mem_or_eq_of_mem_set hs with h | rfl
+        · exact ⟨s, h, z, hz, rfl, rfl, rfl, rfl⟩
+        · rcases repair_origin y d c.clk hz with e | ⟨w, hw, e⟩
+          · exact ⟨x, hxm, d, hdin, e⟩
+          · exact ⟨y, hym, w, hw, e⟩
 
 /-- run a sequence of exchange operations. -/
 def crun (c : Cluster) (ops : List COp) : Cluster := ops.foldl cstep c
 
-theorem crun_abs (k : String) (ops : List COp) : ∀ (c : Cluster), (∀ op ∈ ops, op.valid c.reps.length) →
-    tvf (crun c ops) k = (ops.map (absOp k)).foldl xstep (tvf c k) ∧
-    (∀ i, ∃ j, topd (crun c ops) k i = topd c k j) := by
+theorem crun_abs (k : String) (ops : List COp) : ∀ (c : Cluster), (∀ op ∈ ops, op.valid c.reps.length) → CInv c →
+    tvf (crun c ops) k = (ops.map (absOp k)).foldl xstep (tvf c k) ∧ CInv (crun c ops) ∧
+    ContentFrom c (crun c ops) ∧ (crun c ops).reps.length = c.reps.length := by
   induction ops with
-  | nil => intro c _; exact ⟨rfl, fun i => ⟨i, rfl⟩⟩
+  | nil => intro c _ hi; exact ⟨rfl, hi, ContentFrom.refl c, rfl⟩
   | cons op rest ih =>
-    intro c hv
+    intro c hv hi
     have hop := hv op (by simp)
-    have h1 := cstep_topd c op k hop
+    have h1 := cstep_spec c op k hop hi
     have hrest : ∀ o ∈ rest, o.valid (cstep c op).reps.length := by
       intro o ho; rw [cstep_length]; exact hv o (by simp [ho])
-    have h2 := ih (cstep c op) hrest
+    have h2 := ih (cstep c op) hrest h1.2.1
     have e : tvf (cstep c op) k = xstep (tvf c k) (absOp k op) := by
       funext i; exact h1.1 i
-    constructor
+    refine ⟨?_, h2.2.1, h1.2.2.trans h2.2.2.1, ?_⟩
     · simp only [crun, List.foldl_cons, List.map_cons]
       rw [← e]; exact h2.1
-    · intro i
-      obtain ⟨j, hj⟩ := h2.2 i
-      obtain ⟨j', hj'⟩ := h1.2 j
-      exact ⟨j', by simp only [crun, List.foldl_cons]; rw [← hj']; exact hj⟩
-
+    · simp only [crun, List.foldl_cons]
+      have := h2.2.2.2
+      simp only [crun] at this
+      rw [this, cstep_length]
 
 end Banyan.C18
